@@ -407,21 +407,7 @@ def predicates(ctx, g):
     nt = chamber_tables(ctx, "T4-chamber-table", ctx.body(T + "partial_orientation"), g, fill=None) + chamber_tables(ctx, "T4-chamber-table", ctx.body(T + "orbit_reps_2d"), g, fill=0) + \
         chamber_tables(ctx, "T4-chamber-table", ctx.body("dsyms::collect_orbits"), g, fill=0)
     ctx.floor("chamber-indexed work tables (partial_orientation, orbit_reps_2d, collect_orbits)", nt, 4)
-    for fn in (T + "orbit_reps_2d", "dsyms::collect_orbits"):
-        wb = ctx.body(fn)
-        okx = False
-        for hh, bl in natural_loops(wb):
-            for e_, ats in loop_exit_atoms(wb, hh, bl, g):
-                for a in ats:
-                    a = atom_norm(a, g)
-                    if a[0] == "rel" and a[1] == "Eq":
-                        l_, r_ = strip(a[2]), strip(a[3])
-                        walk = [x for x in (l_, r_) if x[0] == "local" and not wb.is_stable_local(x[1])]
-                        seed = [x for x in (l_, r_) if x[0] == "field" and x[2] == "0"]
-                        if walk and seed and loop_range_of_payload(wb, seed[0], g):
-                            okx = True
-        ctx.ob("T4-predicates", wb.name, "walk closed at e == d", "ok" if okx else "violation",
-               "the walk around a 2-orbit ends exactly when it is back at the chamber it started from" if okx else "the 2-orbit walk is not left exactly when e == d (the start chamber of the orbit)")
+    walk_closing(ctx, g)
     # default r
     b = ctx.body(T + "r")
     bad = None
@@ -649,6 +635,45 @@ def query_ranges(ctx):
     srcs = [range_of(b, b.origin(t["args"][0]), g) for bi, t in b.calls("Iterator::next")]
     okr = any(r is not None and r[0] == ("int", 1) and r[2] and r[1] == ("call", D + "size", (me(b),)) for r in srcs)
     ctx.require(okr, "T4-query-ranges", b.name, "1..=size()", "every chamber is a candidate representative", "orbit_reps_2d does not scan all chambers 1..=size()")
+
+
+def walk_closing(ctx, g):
+    """the 2-orbit walks of orbit_reps_2d / collect_orbits (they decide which chambers Display prints a degree for and FromStr reads one for):
+    left exactly when back at the start chamber, an undefined operation leaves the walk where it is (shared with C01)"""
+    T = "dsets::DSet::"
+    for fn in (T + "orbit_reps_2d", "dsyms::collect_orbits"):
+        wb = ctx.body(fn)
+        okx = False
+        other_exit = False
+        for hh, bl in natural_loops(wb):
+            closing = []
+            exits = loop_exit_atoms(wb, hh, bl, g)
+            for e_, ats in exits:
+                hit = False
+                for a in ats:
+                    a = atom_norm(a, g)
+                    if a[0] == "rel" and a[1] == "Eq":
+                        l_, r_ = strip(a[2]), strip(a[3])
+                        walk = [x for x in (l_, r_) if x[0] == "local" and not wb.is_stable_local(x[1])]
+                        seed = [x for x in (l_, r_) if x[0] == "field" and x[2] == "0"]
+                        if walk and seed and loop_range_of_payload(wb, seed[0], g):
+                            hit = True
+                closing.append(hit)
+            if any(closing):
+                okx = True
+                # the walk has no other way out (a step bound, a second test): an orbit left early is reported a second time
+                if not all(closing):
+                    other_exit = True
+        if okx and other_exit:
+            ctx.ob("T4-predicates", wb.name, "walk closed only at e == d", "violation",
+                   "the walk around a 2-orbit can also be left before it is back at its start chamber (a second loop exit): chambers of a long chain stay unvisited and start orbits of their own")
+        ctx.ob("T4-predicates", wb.name, "walk closed at e == d", "ok" if okx else "violation",
+               "the walk around a 2-orbit ends exactly when it is back at the chamber it started from" if okx else "the 2-orbit walk is not left exactly when e == d (the start chamber of the orbit)")
+    n = 0
+    for d, b in sorted(ctx.facts.bodies.items()):
+        if (d.startswith("dsets::") or d.startswith("<dsets::")) and "::test" not in d and not b.f.get("test"):
+            n += op_fallback_is_fixed_point(ctx, "T4-undefined-op-stays", b, g, allow_zero=True)
+    ctx.floor("op(k, x).unwrap_or(x) sites in dsets.rs", n, 3)
 
 
 def table_slots(ctx):
